@@ -77,6 +77,43 @@ def correspondence(ctx, batch):
         ans = stages.impl_call(lambda: impl_assemble(args))
         batch.add({"op": "assemble", "in": [[n, "-" if lk is None else lk, [conv.enc_json(d) for d in ds]]
                                             for n, lk, ds in args]}, ans, {"args": args})
+    # --code-generator-kwargs items, the pattern split of process_path, the -m tuple shapes
+    import itertools
+    import json_to_models.cli as _cli
+    pieces = ["a", "meta", "=", "==", '"', "true", "x y", "", "é", "b=c"]
+    for _ in range(ctx.n(300, 4000)):
+        items = ["".join(rng.choice(pieces) for _ in range(rng.randint(0, 4))) for _ in range(rng.randint(0, 3))]
+
+        def run_kw(items=items):
+            cli = _cli.Cli()
+            cli.set_args([], "flat", "base", None, list(items), [], [], False, None)     # the real option mapping
+            base = {"post_init_converters", "convert_unicode", "max_literals"}
+            kw = dict(cli.model_generator_kwargs)
+            out = [[k, v] for k, v in kw.items() if k not in base or not isinstance(v, (bool, int))]
+            return [[k, v] for k, v in out if isinstance(v, str)]
+        names = [it.strip('"').split("=", 1)[0] for it in items if "=" in it]
+        if any(n in ("post_init_converters", "convert_unicode", "max_literals") for n in names):
+            continue
+        batch.add({"op": "kwargs", "in": items}, stages.impl_call(run_kw), {"items": items})
+    comps = ["data", "sub", "*.json", "file?.json", "**", "a.json", "x*y", "."]
+    for _ in range(ctx.n(200, 3000)):
+        parts = [rng.choice(comps) for _ in range(rng.randint(1, 4))]
+
+        def run_split(parts=parts):
+            clean = list(itertools.takewhile(lambda part: "*" not in part and "?" not in part, parts))
+            return [clean, parts[len(clean):]]
+        batch.add({"op": "splitpattern", "in": parts}, stages.impl_call(run_split), {"parts": parts})
+        path = "/".join(parts)
+        if _cli.path_split(path) == [p_ for p_ in parts]:
+            got = list(_cli.process_path(path)) if False else None      # globbing itself is an input of the model
+    for xs in (["A"], ["A", "f"], ["A", "l", "f"], ["A", "l", "f", "g"], []):
+        def run_tuple(xs=xs):
+            if len(xs) == 2:
+                return [xs[0], "-", xs[1]]
+            if len(xs) == 3:
+                return list(xs)
+            raise ValueError("`--model` argument should contain exactly 2 or 3 strings")
+        batch.add({"op": "modeltuple", "in": xs}, stages.impl_call(run_tuple), {"xs": xs})
     from json_to_models.cli import Cli
     from json_to_models.registry import ModelFieldsPercentMatch as P, ModelFieldsNumberMatch as N
     from fractions import Fraction
